@@ -1732,7 +1732,7 @@ func walkPathsP(start Loc, terminal func(ssa.Instruction) bool, edgeOK func(b *s
 				// a loop that ends through a flag its body sets (`for done := false; !done; {…}`): the exit is taken from
 				// the loop's head on the way back, so (on request) the head is passed a second time and left through
 				// the branches not yet on the path
-				if walkLoopExits && !revisited[key{fr, s}] {
+				if (walkLoopExits || forceLoopExits) && !revisited[key{fr, s}] {
 					revisited[key{fr, s}] = true
 					err := recExit(s, fr)
 					delete(revisited, key{fr, s})
@@ -1789,6 +1789,9 @@ func frameOfValue(in ssa.Instruction, i, j int) bool {
 
 // walkLoopExits: see walkPathsP (set by a rule around its walk).
 var walkLoopExits bool
+
+// forceLoopExits: experiment switch (XLOOPEXITS=1): every walk passes loop heads a second time.
+var forceLoopExits = os.Getenv("XLOOPEXITS") == "1"
 
 // phiFeasible prunes edges whose condition is decided once phis are resolved
 // along the path: `x != nil` with x a phi of nil / MakeInterface, and
